@@ -1060,7 +1060,7 @@ func wkGenCase(c *Ctx) (string, wkIn) {
 func runWakeup(c *Ctx) {
 	nLoop := 1
 	if c.Thorough() {
-		nLoop = 10
+		nLoop = 25
 	}
 	wkRunLoops(c, nLoop)
 	// one-step worlds of the two reconcilers, judged by the waiting-class oracle on the implementation's result
@@ -1314,7 +1314,7 @@ func wkRsRun(in0 rsWorld) (interface{}, interface{}) {
 	evs := wkDiffEvents(snap0, snap1)
 	roKeys, _, names := wkDispatchReal(netCli.Client, evs)
 	step := J{"requeue": out["requeue"], "err": out["err"], "roGone": out["roGone"], "eventWoke": wkHas(roKeys, trNS+"/r"),
-		"events": names, "zeroRequeueAfter": !res.Requeue && res.RequeueAfter <= 0 && res.RequeueAfter != 0}
+		"events": names, "negRequeueAfter": !res.Requeue && res.RequeueAfter < 0}
 	grace.ResetExpectations()
 	return out, step
 }
@@ -1433,8 +1433,10 @@ func (l *wkLoop) recRollout() {
 	snap0 := wkSnapshot(s.cli.Client)
 	s.cli.Log, s.cli.FailAt, s.cli.sequence = nil, -1, 0
 	old := rolloutctl.VerifSetGracePeriodSeconds(trLongGrace)
+	negRequeue := false
 	impl := guard(func() interface{} {
 		res, err := s.ro.Reconcile(context.TODO(), ctrl.Request{NamespacedName: clRoKey})
+		negRequeue = !res.Requeue && res.RequeueAfter < 0
 		return J{"requeue": res.RequeueAfter > 0 || res.Requeue, "err": err != nil}
 	})
 	rolloutctl.VerifSetGracePeriodSeconds(old)
@@ -1483,7 +1485,7 @@ func (l *wkLoop) recRollout() {
 		l.roTimer = true
 	}
 	if ok {
-		s.c.Emit("ro-step", before, J{"requeue": out["requeue"], "err": out["err"], "roGone": out["roGone"], "eventWoke": eventWoke, "events": names, "zeroRequeueAfter": false})
+		s.c.Emit("ro-step", before, J{"requeue": out["requeue"], "err": out["err"], "roGone": out["roGone"], "eventWoke": eventWoke, "events": names, "negRequeueAfter": negRequeue})
 	}
 }
 
